@@ -141,6 +141,16 @@ func NewEngine(c EngCfg) *liquid.Engine {
 		}
 		return "[" + s + "]", nil
 	})
+	// kv builds a fresh two-entry map from its input and argument: a temporary that is
+	// garbage as soon as the expression has been consumed. A collection runs first (outside
+	// the scheduler, which relies on addresses not being reused during a run), so that a
+	// later temporary may well get the address of an earlier one.
+	e.RegisterFilter("kv", func(v any, k string) map[string]any {
+		if !simrt.Scheduling() {
+			runtime.GC()
+		}
+		return map[string]any{"k": k, "v": v}
+	})
 	e.RegisterFilter("hx", func(s string) (string, error) {
 		if err := cbTick(); err != nil {
 			return "", err
